@@ -402,25 +402,34 @@ func r1main(c *core.Ctx) {
 	const R = "R1.main"
 	c.Rule(R, "main connects, sets up NG and registers in this order (both modes) and hands the configuration to the drivers unchanged")
 
-	if who := mainDelegates(c); who != "" {
-		c.SoftUndecided("%s: main hands the modes over to %s; the main-level rules read the body of main only", R, who)
-		return
-	}
-	fn := mustFunc(c, pMain, "main")
-	c.Analysed(core.FuncName(fn))
-	p := core.NewPather(fn)
 	cfg := func(s string) bool { return strings.HasPrefix(s, "local:*stgutg.Conf#0.Configuration.") }
 	field := func(s string) string { return strings.TrimPrefix(s, "local:*stgutg.Conf#0.Configuration.") }
+	total := 0
+	for _, body := range modeBodies(c) {
+		total += body.modes
+	}
+	if total != 2 {
+		c.Fail(R, "main:calls", mustFunc(c, pMain, "main").Pos(), "expected ConnectToAmf, ManageNGSetup, CreateUE and RegisterUE once per mode (2 modes), found %d ConnectToAmf calls in main and the functions it hands the modes to", total)
+		return
+	}
+	for _, body := range modeBodies(c) {
+		r1mainBody(c, R, body, cfg, field)
+	}
+}
+
+func r1mainBody(c *core.Ctx, R string, body *mainBody, cfg func(string) bool, field func(string) string) {
+	fn, p := body.fn, body.p
+	c.Analysed(core.FuncName(fn))
 	conns := core.CallsTo(fn, pTglib+".ConnectToAmf")
 	ngs := core.CallsTo(fn, pStg+".ManageNGSetup")
 	regs := core.CallsTo(fn, pStg+".RegisterUE")
 	cres := core.CallsTo(fn, pStg+".CreateUE")
-	if len(conns) != 2 || len(ngs) != 2 || len(regs) != 2 || len(cres) != 2 {
-		c.Fail(R, "main:calls", fn.Pos(), "expected ConnectToAmf, ManageNGSetup, CreateUE and RegisterUE once per mode (2 each), found %d, %d, %d, %d", len(conns), len(ngs), len(cres), len(regs))
+	if len(conns) != body.modes || len(ngs) != body.modes || len(regs) != body.modes || len(cres) != body.modes {
+		c.Fail(R, "main:calls", fn.Pos(), "expected ConnectToAmf, ManageNGSetup, CreateUE and RegisterUE once per mode (%d each in %s), found %d, %d, %d, %d", body.modes, fn.Name(), len(conns), len(ngs), len(cres), len(regs))
 		return
 	}
-	for i := 0; i < 2; i++ {
-		mode := fmt.Sprintf("mode%d", i+1)
+	for i := 0; i < body.modes; i++ {
+		mode := fmt.Sprintf("mode%d", body.first+i+1)
 		co, ng, rg, cr := conns[i].(*ssa.Call), ngs[i].(*ssa.Call), regs[i].(*ssa.Call), cres[i].(*ssa.Call)
 		c.Check(core.Dominates(co, ng) && core.Dominates(ng, rg) && core.Dominates(cr, rg), R, "main:"+mode+":connect<ngsetup<register", ng.Pos(), "dominance order", "main must connect, complete NG Setup, then create and register UEs")
 		a := co.Common().Args
